@@ -48,3 +48,10 @@ package paths
 //@ func reportParamVsLiterals props C15,C14
 //@ requires conflicts != nil && seen != nil
 //@ modifies *conflicts, any(elems(*conflicts)), elems(seen)
+
+// The reported list is ordered by (first path, second path, reason): the order does not depend on discovery order (C13)
+//@ spec conflictBefore(a Conflict, b Conflict) bool = a.A.Path < b.A.Path || (a.A.Path == b.A.Path && (a.B.Path < b.B.Path || (a.B.Path == b.B.Path && !(b.Reason < a.Reason))))
+//@ func inPlaceSortConflicts props C15,C13,C14
+//@ modifies elems(conflicts)
+//@ ensures same: result == conflicts
+//@ ensures sorted: forall(i, 0, len(result)-1, conflictBefore(result[i], result[i+1]))
